@@ -4,6 +4,7 @@
 // -> strtod/strtof (correctly rounded), exact integer arithmetic for integer
 // readers, golden unit table for suffixes.
 #include "fixture.hpp"
+#include <cerrno>
 #include "units_golden.hpp"
 using namespace vf;
 
@@ -18,6 +19,7 @@ struct Lit {
     int specialTag = -1;     // >= 0: special mnemonic
     bool nearMissSpecial = false;
     bool innerWs = false, hasExp = false, hasFrac = false, hasSign = false, boundary = false;
+    int prelude = 0;          // 1..5: another literal, one that leaves libc's range-error state behind, is decoded first on the same context
     int digits = 0;
 };
 
@@ -147,17 +149,26 @@ static Lit decode(Src &s) {
         switch (s.range(0, 2)) { case 0: break; case 1: for (auto &ch : t) ch = (char) tolower(ch); break; default: for (auto &ch : t) if (s.coin()) ch = (char) tolower(ch); }
         l.text = t; l.canon = t;
     }
+    if (!s.prob(3, 4)) l.prelude = (int) s.range(1, 5);
     return l;
 }
 
-static std::string describe(const Lit &l) { return fmt("reader=%s literal '", kRName[l.reader]) + vis(l.text) + "' (canonical '" + l.canon + "')"; }
+static std::string describe(const Lit &l) { return fmt("reader=%s literal '", kRName[l.reader]) + vis(l.text) + "' (canonical '" + l.canon + "')" + (l.prelude ? fmt(" after an out-of-range literal (prelude %d) on the same context", l.prelude) : ""); }
 
 static bool g_armLit = false;
 static std::string checkLit(const Lit &l, bool *nt = nullptr) {
-    if (g_armLit) armCase("sub=lit\nreader=" + std::to_string((int) l.reader) + "\ntext=" + hexEnc(l.text) + "\nunit=" + std::to_string(l.unitIdx) + "\ncanon=" + hexEnc(l.canon) + "\n");
+    if (g_armLit) armCase("sub=lit\nreader=" + std::to_string((int) l.reader) + "\ntext=" + hexEnc(l.text) + "\nunit=" + std::to_string(l.unitIdx) + "\ncanon=" + hexEnc(l.canon) + "\nprelude=" + std::to_string(l.prelude) + "\n");
     InstCfg k; k.bufLen = l.text.size() + 16; k.queueLen = 4;
     Cmd c; c.pattern = "CMD"; Reader r; r.kind = l.reader; c.script.readers.push_back(r); k.cmds.push_back(c);
+    static const struct { RKind rd; const char *text; } kPrelude[] = {{R_F32, "1E-50"}, {R_F32, "3.5E38"}, {R_F64, "1e400"}, {R_F64, "-1e-400"}, {R_I64, "99999999999999999999"}};
+    if (l.prelude) { Cmd p; p.pattern = "PRE"; Reader pr; pr.kind = kPrelude[l.prelude - 1].rd; p.script.readers.push_back(pr); k.cmds.push_back(p); k.bufLen += 32; }
+    errno = 0;      // a case does not inherit libc state from the case before it; what precedes the literal is part of the case
     Inst I(k);
+    if (l.prelude) {
+        // what a conversion leaves behind (errno after an out-of-range literal) must not change the next one
+        I.input(std::string("PRE ") + kPrelude[l.prelude - 1].text + "\n");
+        I.drainErrors(); I.trace.clear(); I.errors.clear();
+    }
     bool ret = I.input("CMD " + l.text + "\n");
     if (nt) *nt = l.hasExp || l.hasFrac || l.hasSign || l.innerWs || l.unitIdx >= 0 || l.base != 10 || l.digits > 15 || l.specialTag >= 0;
     if (!I.invariant.empty()) return I.invariant + ": " + describe(l);
@@ -199,6 +210,7 @@ static std::string body(Src &s, Ev &ev) {
     ev.eval();
     ev.label(std::string(kRName[l.reader]) + (l.specialTag >= 0 ? "-special" : l.unitIdx >= 0 ? "-suffix" : l.base != 10 ? "-nondecimal" : "-decimal"));
     if (l.innerWs) ev.label("white-space-inside-number");
+    if (l.prelude) ev.label("after-out-of-range-literal");
     if (l.boundary) ev.label(l.reader == R_F32 ? "float-rounding-boundary" : "double-rounding-boundary");
     if (nt) ev.nt(hashStr(std::to_string((int) l.reader) + l.text));
     if (nt && ev.wantSample()) ev.sample(describe(l));
@@ -233,7 +245,7 @@ static void runTable(const Opt &o, Ev &ev) {
 int main(int argc, char **argv) {
     std::vector<Sub> subs;
     auto replayLit = [](const Replay &r) {
-        Lit l; l.reader = (RKind) r.num("reader", R_NUM); l.text = hexDec(r.get("text")); l.canon = hexDec(r.get("canon")); l.unitIdx = (int) r.num("unit", -1);
+        Lit l; l.reader = (RKind) r.num("reader", R_NUM); l.text = hexDec(r.get("text")); l.canon = hexDec(r.get("canon")); l.unitIdx = (int) r.num("unit", -1); l.prelude = (int) r.num("prelude", 0);
         if (l.canon.empty()) return std::string("replay of a crash case: run it through the rand sub-check (no expected value recorded)");
         return checkLit(l);
     };
